@@ -210,9 +210,26 @@ def _r2(ck: Checker, prog: Program):
             b = bind_call(c, f.params)
             from ..resolve import Resolver
             RR = Resolver(prog, g, inline=False)
-            a0 = str(RR.value(b["ns"], c)) if "ns" in b else "<missing>"
-            a1 = str(RR.value(b["ew"], c)) if "ew" in b else "<missing>"
-            good = a0.endswith(".ns.amplitude") and a1.endswith(".ew.amplitude") and a0.split(".")[0] == a1.split(".")[0]
+            def comp_of(v):
+                """(component, owner) of `<owner>.<component>.amplitude` in either canonical spelling."""
+                t = str(v)
+                if v.is_Symbol and t.endswith(".amplitude") and t.count(".") >= 2:
+                    parts = t.split(".")
+                    return parts[-2], ".".join(parts[:-2])
+                if getattr(getattr(v, "func", None), "__name__", "") == "attr_amplitude":
+                    inner = v.args[0]
+                    nm = getattr(getattr(inner, "func", None), "__name__", "")
+                    if nm.startswith("attr_"):
+                        return nm[5:], str(inner.args[0])
+                    if inner.is_Symbol and "." in str(inner):
+                        return str(inner).rsplit(".", 1)[1], str(inner).rsplit(".", 1)[0]
+                return None, None
+            v0 = RR.value(b["ns"], c) if "ns" in b else None
+            v1 = RR.value(b["ew"], c) if "ew" in b else None
+            a0, a1 = str(v0) if v0 is not None else "<missing>", str(v1) if v1 is not None else "<missing>"
+            c0, o0 = comp_of(v0) if v0 is not None else (None, None)
+            c1, o1 = comp_of(v1) if v1 is not None else (None, None)
+            good = c0 == "ns" and c1 == "ew" and o0 is not None and o0 == o1
             if good:
                 ck.ok(P + "R2", g.qualname, norm_key(c, 110))
             else:
